@@ -75,23 +75,26 @@ static void judge(Ctx& ctx, const Case& c, bool from_replay) {
   };
   if (mode == 0) { gen_script(scripts[0]); for (int t = 1; t < T; ++t) scripts[(size_t)t] = scripts[0]; }   // own copy of the same data
   else for (int t = 0; t < T; ++t) gen_script(scripts[(size_t)t]);
-  ReuseableDataContainer64 shared;
-  { Paths64 sp = gen::zoo_paths(r, 1 << 16, 5); sp.push_back(gen::star_shaped(r, 0, 0, 40000, 9)); shared.AddPaths(sp, PathType::Subject, false);
-    shared.AddPaths(Paths64{ gen::polyline(r, 0, 0, 50000, 5) }, PathType::Subject, true); }
-  const ReuseableDataContainer64* sh = (mode == 2) ? &shared : nullptr;
-  // sequential reference
+  // two identical shared containers: a FRESH one for the concurrent phase (so that any lazily initialised state of a
+  // container is first touched by several threads at once) and another for the sequential reference
+  Paths64 shp = gen::zoo_paths(r, 1 << 16, 5); shp.push_back(gen::star_shaped(r, 0, 0, 40000, 9));
+  Paths64 sho{ gen::polyline(r, 0, 0, 50000, 5) };
+  ReuseableDataContainer64 shared_conc, shared_seq;
+  shared_conc.AddPaths(shp, PathType::Subject, false); shared_conc.AddPaths(sho, PathType::Subject, true);
+  shared_seq.AddPaths(shp, PathType::Subject, false); shared_seq.AddPaths(sho, PathType::Subject, true);
   std::vector<uint64_t> ref((size_t)T), got((size_t)T);
-  for (int t = 0; t < T; ++t) ref[(size_t)t] = run_script(scripts[(size_t)t], sh, nullptr, nullptr);
   long long rep0 = g_tsan_reports.load();
-  // concurrent run
+  // concurrent run FIRST: a first-use initialisation anywhere in the library then happens under contention
   Barrier start; start.n = T; Barrier step; step.n = T;
   std::vector<std::thread> th;
   std::vector<Rng> yr; for (int t = 0; t < T; ++t) yr.emplace_back((uint64_t)c.geti("rseed"), 1000 + (uint64_t)t);
   for (int t = 0; t < T; ++t) th.emplace_back([&, t]() {
     start.wait();
-    got[(size_t)t] = run_script(scripts[(size_t)t], sh, mode == 0 ? &step : nullptr, &yr[(size_t)t]);
+    got[(size_t)t] = run_script(scripts[(size_t)t], mode == 2 ? &shared_conc : nullptr, mode == 0 ? &step : nullptr, &yr[(size_t)t]);
   });
   for (auto& x : th) x.join();
+  // sequential reference afterwards
+  for (int t = 0; t < T; ++t) ref[(size_t)t] = run_script(scripts[(size_t)t], mode == 2 ? &shared_seq : nullptr, nullptr, nullptr);
   long long reps = g_tsan_reports.load() - rep0;
   ctx.evaluated((long long)T * nops);
   ctx.count("rounds"); ctx.count("rounds_T" + std::to_string(T)); ctx.count("rounds_mode" + std::to_string(mode)); ctx.count("thread_ops_run", (long long)T * nops);
